@@ -124,7 +124,7 @@ def _solversim_check(prop: str, focus: str, profile_extra: Dict[str, Any], quick
 
 CHECKS = {
     "C01": _solversim_check("C01", "C01", {}, 240, 12000, 100, 1800),
-    "C02": _solversim_check("C02", "C02", {"unsat_prob": 0.45, "clock_op_prob": 0.22}, 240, 12000, 100, 1800),
+    "C02": _solversim_check("C02", "C02", {"unsat_prob": 0.45, "clock_op_prob": 0.22, "fault_bias": {"fault_free_prob": 0.2, "z3_slow": 5, "clk_jump_fwd": 3}}, 240, 12000, 100, 1800),
     "C18": _solversim_check("C18", "C18", {"api_ops": True, "families": ["ambig", "ambig", "signed", "csv", "config"], "families_prob": 0.45}, 200, 8000, 110, 1800),
 }
 
